@@ -10,6 +10,9 @@ CHECKS = {
     'C09': dict(tech=SYMX, ref='3/C09',
                 text='For every closure (and alias) x hard-core flag, the real calculate() is executed on a 3-point arbitrary increasing grid with symbolic gamma, u, sigma; per path (core size) the solver proves c_i equals the published relation / -1-gamma_i for all real values, purity and repeatability; first-order limit proven by running the same code over dual numbers. Bounded: 3 grid points; Real (not float) arithmetic.',
                 note='Trusted: numpy object-array semantics, z3/nlsat, the Ackermann axioms for exp/sqrt listed in evidence. MS deviates from the published relation (known finding, test-pinned).'),
+    'C10': dict(tech=SYMX, ref='3/C10',
+                text='Each shipped potential (HardSphere, Exponential, HardCoreLennardJones, LennardJones plain/cut/cut+shift, WCA) is executed on a 3-point arbitrary increasing grid with every parameter symbolic (epsilon of either sign, alpha, sigma, rcut, high_value); per path (core size / cut position) the solver proves u_i equals the documented formula, core = r_i<=sigma for all three hard-core potentials, exactly 0 beyond r_cut, continuity at r_cut when shifted, WCA >= -1e-12*eps and 0 beyond its cut, purity and repeatability; sigma defaulting proven through the real createPRISM. Bounded: 3 grid points, Real arithmetic.',
+                note='Trusted: numpy object-array semantics, z3/nlsat, exp Ackermann axioms. 2**(1/6) is read as the simplest rational within half an ulp of the double. The FP question (a grid point that coincides with sigma up to rounding) is a separate obligation family.'),
 }
 
 NOT_YET = {}
